@@ -332,7 +332,50 @@ def eval_moved(case):
     return {'v': v, 'nt': tuple(case), 'out': f'moved:{exp[0]}'}
 
 
-REPLAY = {'services': eval_service, 'nodes': eval_node, 'tables': eval_meta, 'mirror': eval_mirror, 'moved': eval_moved}
+def eval_same_named_ports(case):
+    """two connected interfaces whose derived service-port names coincide (legal names): every one of them counts"""
+    stype, pattern = case
+    v = []
+    world.reset_all()
+    t = ExperimentTopology()
+    ports = []
+    if pattern == 'two-nodes-two-sites':
+        # 'n1' + 'a-nic-p1' and 'n1-a' + 'nic-p1' both derive 'n1-a-nic-p1'
+        c1 = t.add_node(name='n1', site='S1').add_component(name='a-nic', model_type=ComponentModelType.SmartNIC_ConnectX_6)
+        c2 = t.add_node(name='n1-a', site='S2').add_component(name='nic', model_type=ComponentModelType.SmartNIC_ConnectX_6)
+        ports = [([i for i in c1.interface_list if i.name.endswith('p1')][0], 'DedicatedPort', 'S1'),
+                 ([i for i in c2.interface_list if i.name.endswith('p1')][0], 'DedicatedPort', 'S2')]
+    else:
+        # sub-interfaces called 'sub1' on two (three) dedicated ports of one node all derive 'n1-sub1'
+        n = t.add_node(name='n1', site='S1')
+        k = 3 if pattern == 'three-subs-one-node' else 2
+        for j in range(k):
+            c = n.add_component(name=f'nic{j}', model_type=ComponentModelType.SmartNIC_ConnectX_6)
+            p1 = [i for i in c.interface_list if i.name.endswith('p1')][0]
+            ports.append((p1.add_child_interface(name='sub1', labels=Labels(vlan=str(10 + j))), 'SubInterface', 'S1'))
+    ctx = f'[{stype} over {pattern}]'
+    try:
+        t.add_network_service(name='svc', nstype=ServiceType[stype], interfaces=[p for p, _, _ in ports])
+    except Exception as e:
+        return {'v': v, 'nt': None, 'out': 'refused-at-once'}
+    exp = predict(stype, ports, None, None)
+    try:
+        t.validate()
+        got = 'accept'
+        why = ''
+    except Exception as e:
+        got = 'reject'
+        why = f'{type(e).__name__}: {str(e)[:120]}'
+    if exp[0] != 'unspecified' and got != exp[0]:
+        clause = exp[1].replace(' ', '-') if exp[0] == 'reject' else 'valid'
+        v.append((f'same-named-ports/{"accepts-invalid" if got == "accept" else "rejects-valid"}/{clause}',
+                  f'validate() {got}s ({why}) but the tables say {exp} {ctx}'))
+    elif got == 'accept' and PINNED[stype][2] and t.network_services['svc'].site != exp[1]:
+        v.append(('same-named-ports/site-not-recorded', f'recorded site {t.network_services["svc"].site!r}, expected {exp[1]!r} {ctx}'))
+    return {'v': v, 'nt': tuple(case), 'out': f'same-named:{exp[0]}'}
+
+
+REPLAY = {'services': eval_service, 'same-named-ports': eval_same_named_ports, 'nodes': eval_node, 'tables': eval_meta, 'mirror': eval_mirror, 'moved': eval_moved}
 
 
 def service_cases(tier):
@@ -381,6 +424,10 @@ def run(report):
                        rule='every service type x 1..2 dedicated ports: declared site S1, connected at S1, validated, every interface '
                             'disconnected, the same number connected at S1 / S2, validated again against the tables')
     report.require(gm['outcomes'].get('moved:reject', 0) > 0 and gm['outcomes'].get('moved:accept', 0) > 0, 'moved services accepted and rejected')
+    explore_cases(report, 'same-named-ports', eval_same_named_ports,
+                  [(st, pat) for st in PINNED for pat in ('two-nodes-two-sites', 'two-subs-one-node', 'three-subs-one-node')], chunk=4,
+                  rule='every service type over interfaces whose derived service-port names coincide (two nodes on two sites; two '
+                       'or three sub-interfaces of one node): counts, sites and kinds are judged over ALL connected interfaces')
     nodes = [(nt, tg) for nt in PINNED_NODES for tg in (None, 'no-site', 'image', 'management_ip', 'component')]
     explore_cases(report, 'nodes', eval_node, nodes, chunk=2, rule='6 node types x (plain | site unset | image | management ip | a component)')
     explore_cases(report, 'mirror', eval_mirror, [(k, d) for k in ('dedicated', 'shared') for d in ('Both', 'RX_Only', 'TX_Only')], chunk=1,
